@@ -311,6 +311,44 @@ func ruleSetShape(w *World, r *Report) {
 			r.Check(every, rule, pos, fname, effectText(Effect{Instr: mu}), "every element of the operand enters the set", "some elements are skipped when the set is built")
 			setFrom[mm] = ops
 		})
+		// every element is examined: a set probe / an element comparison executes on every iteration of the
+		// loop(s) that produce its operands (a `continue` that skips some elements loses members)
+		EachInstr(fn, func(in ssa.Instruction) {
+			var elems []ssa.Value
+			what := ""
+			switch x := in.(type) {
+			case *ssa.Lookup:
+				if _, isSet := x.X.(*ssa.MakeMap); !isSet {
+					return
+				}
+				elems = []ssa.Value{x.Index}
+				what = "probe " + describe(x)
+			case *ssa.BinOp:
+				if x.Op != token.EQL && x.Op != token.NEQ {
+					return
+				}
+				_, okx := elemOfOperand(x.X, params)
+				_, oky := elemOfOperand(x.Y, params)
+				if !okx && !oky {
+					return
+				}
+				elems = []ssa.Value{x.X, x.Y}
+				what = "comparison " + describe(x)
+			default:
+				return
+			}
+			for _, e := range elems {
+				ia := mustIndexAddr(e)
+				if ia == nil {
+					continue
+				}
+				hdr, okh := rangeIndexHeader(ia.Index, ia.X)
+				if !okh {
+					continue
+				}
+				r.Check(loopVisitsAll(hdr, in.Block()) || nestedVisitsAll(hdr, in.Block()), rule, w.InstrPos(in), fname, what, "executes for every element of the ranged operand", "some elements of an operand are never examined (a skipped iteration): members can be missed")
+			}
+		})
 		for _, ret := range valueReturns(fn) {
 			v := unwrapIface(ret.Results[0])
 			pos := w.InstrPos(ret)
@@ -359,6 +397,25 @@ func ruleSetShape(w *World, r *Report) {
 			r.Check(okFalse, rule, pos, fname, "return false", why, "a `false` is returned before every element was examined")
 		}
 	}
+}
+
+// nestedVisitsAll: blk lies in an inner loop that itself runs on every
+// iteration of the outer loop hdr (the nested scan: for a in A { for b in B { cmp } }).
+func nestedVisitsAll(hdr, blk *ssa.BasicBlock) bool {
+	// find the inner loop header: a block dominated by hdr's body edge, in a cycle avoiding hdr, dominating blk
+	for _, h := range hdr.Parent().Blocks {
+		if h == hdr || len(h.Succs) != 2 || !h.Dominates(blk) || !edgeDominates(hdr, 0, h) {
+			continue
+		}
+		if !reachableAvoiding(h.Succs[0], h, func(b *ssa.BasicBlock) bool { return b == hdr }) {
+			continue
+		}
+		// the inner loop is entered on every outer iteration, and blk on every inner iteration
+		if loopVisitsAll(hdr, h) && loopVisitsAll(h, blk) {
+			return true
+		}
+	}
+	return false
 }
 
 func mustIndexAddr(v ssa.Value) *ssa.IndexAddr {
@@ -495,6 +552,8 @@ var c17Witnesses = []Witness{
 		{File: "operator.go", Old: "				for _, i := range A {\n					for _, j := range B {\n						if i == j {\n							return true, nil\n						}\n					}\n				}\n				return false, nil\n			}\n			if len(A) > len(B) {\n				A, B = B, A\n			}\n			set := make(map[int64]struct{}, len(A))", New: "				for _, i := range A {\n					for _, j := range B {\n						if i == j {\n							return true, nil\n						}\n					}\n					return false, nil\n				}\n				return false, nil\n			}\n			if len(A) > len(B) {\n				A, B = B, A\n			}\n			set := make(map[int64]struct{}, len(A))"}}},
 	{Name: "swap-only-one-side", Rule: "R-SETSHAPE", Edits: []Edit{
 		{File: "operator.go", Old: "			if len(A) > len(B) {\n				A, B = B, A\n			}\n			set := make(map[int64]struct{}, len(A))", New: "			if len(A) > len(B) {\n				A = B\n			}\n			set := make(map[int64]struct{}, len(A))"}}},
+	{Name: "hash-probe-skips-out-of-range-values", Rule: "R-SETSHAPE", Edits: []Edit{
+		{File: "operator.go", Old: "			for _, i := range B {\n				if _, exist := set[i]; exist {\n					return true, nil\n				}\n			}\n			return false, nil\n		case []string:", New: "			for _, i := range B {\n				if i < 0 {\n					continue\n				}\n				if _, exist := set[i]; exist {\n					return true, nil\n				}\n			}\n			return false, nil\n		case []string:"}}},
 	{Name: "benign-overlap-threshold-50", Benign: true, Edits: []Edit{
 		{File: "operator.go", Old: "			if len(A)+len(B) < 100 {\n				for _, i := range A {\n					for _, j := range B {\n						if i == j {\n							return true, nil\n						}\n					}\n				}\n				return false, nil\n			}\n			if len(A) > len(B) {\n				A, B = B, A\n			}\n			set := make(map[int64]struct{}, len(A))", New: "			if len(A)+len(B) < 50 {\n				for _, i := range A {\n					for _, j := range B {\n						if i == j {\n							return true, nil\n						}\n					}\n				}\n				return false, nil\n			}\n			if len(A) > len(B) {\n				A, B = B, A\n			}\n			set := make(map[int64]struct{}, len(A))"}}},
 	{Name: "benign-in-string-scan-inverted", Benign: true, Edits: []Edit{
